@@ -12,7 +12,7 @@ LEVEL = 'exploration'
 RULE = (
     'cases: (a) trajectories of 1-5 atoms x 1-30 frames in lattice-zoo cells, positions uniform, on exact voxel '
     'edges k/n, and from the hostile face set (0, -0.0, 1, -1e-17, 1-1e-16, ...); resolutions from 0.15 A up to the '
-    'shortest cell length, a third of them chosen so that L/resolution is an integer (+-1 ulp).  Oracle: np.add.at '
+    'shortest cell length, a third of them chosen so that L/resolution is an integer (+-1 ulp); every eighth case has one very long axis (130 .. 70 000 voxels along it, 1-3 across).  Oracle: np.add.at '
     'histogram on floor(x n) per axis; a coordinate within 1e-9 of a voxel edge may fall on either side, except on power-of-two grids where k/n is exact and must land in voxel k.  (b) '
     'voxel -> fractional centre -> voxel round trip for EVERY index of EVERY grid size 1..N on each axis (quick '
     'N=3000, thorough N=20000), exhaustive.  Non-trivial (a) = at least one sample on a voxel edge or hostile value '
@@ -86,11 +86,26 @@ def run_unit(unit, rng, ctx):
     if unit['k'] == 'rt':
         return run_roundtrip(unit, rng, ctx)
     kind, rot, m = geom.random_lattice(rng, lo=3.0, hi=10.0)
+    long_axis = unit['i'] % 8 == 3
+    if long_axis:
+        # one very long axis: grids with hundreds to tens of thousands of voxels along it
+        res0 = float(rng.uniform(0.15, 0.4))
+        n_long = int(rng.choice([130, 260, 300, 1000, 33000, 66000, 70000]))
+        ax = int(rng.integers(3))
+        lens = res0 * rng.uniform(1.1, 3.9, size=3)
+        lens[ax] = res0 * (n_long + 0.5)
+        m = geom.matrix_from_parameters(*lens, 90, float(rng.choice([90, 100, 115])) if ax != 1 else 90, 90)
+        if rng.integers(2):
+            m = m @ geom.random_rotation(rng).T
+        kind, rot = 'long_axis', True
     lengths = np.linalg.norm(m, axis=1)
     T = int(rng.integers(1, 31))
     N = int(rng.integers(1, 6))
     u = rng.uniform()
-    if u < 0.33:
+    if long_axis:
+        res = res0
+        res_mode = 'long_axis'
+    elif u < 0.33:
         k = int(rng.integers(1, 40))
         res = float(lengths[int(rng.integers(3))] / k)
         res = float(np.nextafter(res, res + rng.choice([-1.0, 0.0, 1.0])))
